@@ -167,8 +167,8 @@ def check(ctx: Ctx) -> None:
     # ---- enumeration of possible content evaluation results (bounded)
     max_fc = 2 if ctx.tier == "quick" else 3
     for n_fc, n_rc in itertools.product(range(max_fc + 1), range(4)):
-        fcs = [str(901 + i) for i in range(n_fc)]
-        rcs = [str(1 + i) for i in range(n_rc)]
+        fcs = ["901", "950", "999"][:n_fc]
+        rcs = ["9", "10", "2000"][:n_rc]  # ascending numerically, not lexicographically
 
         def run(ch, fcs=fcs, rcs=rcs):
             h = Harness(model, ch)
@@ -191,7 +191,7 @@ def check(ctx: Ctx) -> None:
         if n_fc or n_rc:
             for rv in itertools.product(("FULFILLED", "UNFULFILLED", "UNKNOWN"), repeat=n_rc):
                 for fv in itertools.product((True, False), repeat=n_fc):
-                    want.add((tuple(zip(rcs, rv)), tuple(zip(fcs, fv))))
+                    want.add((tuple(sorted(zip(rcs, rv))), tuple(sorted(zip(fcs, fv)))))
         ok = len(outs) == 1 and outs[0][0] == "ret" and len(outs[0][1]) == len(want) and set(outs[0][1]) == want
         got_n = len(outs[0][1]) if outs and outs[0][0] == "ret" else outs
         ctx.ob("C18.enumerate", f"fc={n_fc},rc={n_rc}", ok,
